@@ -44,7 +44,7 @@ def plan(tier, seed):
     jobs = [{"name": "appnotes", "spec": {"kind": "appnotes"}}]
     n = 12000 if tier == "quick" else 150000
     for i in range(NSH):
-        jobs.append({"name": "bf3_%02d" % i, "spec": {"kind": "bf3", "n": n // NSH}})
+        jobs.append({"name": "bf3_%02d" % i, "spec": {"kind": "bf3", "n": n // NSH, "many": i < (1 if tier == "quick" else 4)}})
     for i in range(4 if tier == "quick" else 16):
         jobs.append({"name": "hist%02d" % i, "spec": {"kind": "histories", "n": 120 if tier == "quick" else 4000}})
     nb = 1280 if tier == "quick" else 16000
@@ -55,7 +55,7 @@ def plan(tier, seed):
 
 def mandatory_bins(tier):
     b = ["offset_%d" % o for o in OFFSETS] + ["offset_random", "tag_order_not_sorted", "encrypted_component", "zero_components", "eight_tags",
-         "text_stream", "text_path", "bec2", "appnote_scripts", "block_cust_opened", "block_update_opened", "block_ecc_opened", "customer_key_in_slot", "histories_under_layout_hooks"]
+         "text_stream", "text_path", "bec2", "appnote_scripts", "block_cust_opened", "block_update_opened", "block_ecc_opened", "customer_key_in_slot", "histories_under_layout_hooks", "second_export_after_in_place_mutation", "more_than_255_components"]
     b += ["blocks_" + "+".join(l) for l in GB.all_block_lists()]
     return b
 
@@ -110,6 +110,18 @@ def run_bf3(ns, ctx, mon, case, key, offset, scratch, idx):
             p = os.path.join(scratch, "f%d.bf3" % (idx % 7))
             obj.write_file(p, key)
             ctx.bin("text_path")
+        # history: mutate components IN PLACE (same objects) and export again with the same key; the hook
+        # re-derives the model from the object at call time, so stale cached bytes/MACs show up
+        if case.comps and idx % 2 == 0:
+            rng = ctx.rng
+            for c in obj.components:
+                if rng.random() < 0.7:
+                    c.blob = bytes((x ^ 0x3C) for x in c.blob) if rng.random() < 0.5 else c.blob + rng.randbytes(rng.choice((1, 16)))
+                    c.actual_len = len(c.blob)
+            ctx.bin("second_export_after_in_place_mutation")
+            obj.to_binary(offset, key)
+            buf = io.StringIO()
+            obj.write_file(buf, key)
     except Exception as e:
         ctx.exc(e)
         if any(len(c.desc_bytes()) > 210 for c in case.comps):
@@ -199,6 +211,11 @@ def run_shard(spec, ctx):
                     off = OFFSETS[i % len(OFFSETS)]
                     ctx.bin("offset_%d" % off)
                 run_bf3(ns, ctx, mon, case, key, off, scratch, i)
+                if i == 1 and spec.get("many"):
+                    # more than 255 components: the entry MAC IV is the full 16-byte big-endian (1+index)
+                    many = G.Case([], [MComp([(1, bytes([j % 256]))], bytes([j % 251 + 1]) * (1 + j % 3), None, False) for j in range(258)])
+                    ctx.bin("more_than_255_components")
+                    run_bf3(ns, ctx, mon, many, key, 5, scratch, 3)
                 if i == 0:
                     ctx.sample({"kind": "bf3", "offset": off, "key": key, "case": case.to_json()})
             return
